@@ -502,9 +502,90 @@ def thread_lifecycle_cases(rep):
     return n
 
 
+def thread_inflight_cases(rep):
+    """Coroutine calls through the proxy are IN FLIGHT on a real EventLoopThread when force_stop() arrives.  Each call unwinds from
+    the cancellation in its own way: at once, after 4 or 12 further loop iterations of clean-up (awaits in except / finally), or by
+    finishing its clean-up and returning a value.  All ordered pairs and a few triples; the ordering is forced (every call has
+    reported that it is running before the stop is requested).  Every caller must get a result or an exception -- none may be
+    left waiting -- and the owner's thread must end."""
+    from bellows.thread import EventLoopThread, ThreadsafeProxy
+
+    kinds = ("at-once", "cleanup-4", "cleanup-12", "returns-after-cleanup")
+    combos = list(itertools.product(kinds, repeat=2)) + [("cleanup-12", "at-once", "cleanup-4"), ("at-once", "at-once", "cleanup-12"),
+                                                         ("returns-after-cleanup", "cleanup-12", "at-once")]
+    n = 0
+    for combo in combos:
+        n += 1
+        msgs = []
+
+        class Target:
+            def __init__(self):
+                self.running = []
+
+            async def call(self, kind, ident):
+                steps = {"at-once": 0, "cleanup-4": 4, "cleanup-12": 12, "returns-after-cleanup": 6}[kind]
+                self.running.append(ident)
+                try:
+                    await asyncio.sleep(3600)
+                except asyncio.CancelledError:
+                    for _ in range(steps):
+                        await asyncio.sleep(0)
+                    if kind == "returns-after-cleanup":
+                        return ("cleaned", ident)
+                    raise
+                return ("slept", ident)
+
+        async def scenario():
+            th = EventLoopThread()
+            await th.start()
+            target = Target()
+            proxy = ThreadsafeProxy(target, th.loop)
+            futs = [asyncio.ensure_future(proxy.call(kind, i)) for i, kind in enumerate(combo)]
+            for _ in range(2000):
+                if len(target.running) == len(combo):
+                    break
+                await asyncio.sleep(0.001)
+            else:
+                msgs.append("harness: the calls did not start on the owner's loop")
+                return
+            th.force_stop()
+            done, pending = await asyncio.wait(futs, timeout=8)
+            for i, f in enumerate(futs):
+                if f in pending:
+                    msgs.append(f"calls {list(combo)} in flight at force_stop: the caller of call #{i} ({combo[i]}) got neither a result nor an exception")
+                    f.cancel()
+                elif not f.cancelled():
+                    f.exception()
+            try:
+                await asyncio.wait_for(asyncio.shield(th.thread_complete), 8)
+            except asyncio.TimeoutError:
+                msgs.append(f"calls {list(combo)} in flight at force_stop: the owner thread did not end")
+
+        loop = asyncio.new_event_loop()
+        try:
+            loop.run_until_complete(asyncio.wait_for(scenario(), 60))
+        except Exception as e:  # noqa
+            msgs.append(f"calls {list(combo)} in flight at force_stop: scenario raised {type(e).__name__}: {e}")
+        finally:
+            try:
+                loop.run_until_complete(asyncio.sleep(0))
+                loop.close()
+            except Exception:  # noqa
+                pass
+        for m in msgs:
+            if m.startswith("harness:"):
+                raise explore.InternalError(m)
+            rep.add_violation("C20|thread-inflight|" + m.split(": ", 1)[1][:60].replace(str(list(combo)), ""), "EventLoopThread owner, " + m,
+                              {"world": "c20", "kind": "thread-inflight", "combo": list(combo)})
+        if msgs and n >= 3:
+            break       # (every further case would wait for its time-out as well)
+    return n
+
+
 def main(tier: str) -> int:
     rep = report.Report("C20", tier, "model_checking")
     n_thread = thread_lifecycle_cases(rep)
+    n_thread += thread_inflight_cases(rep)
     k = 4 if tier == "quick" else 6
     st = explore.dbdfs(("mc.checks.c20", "build"), param_list(tier), k, budget_s=(60 if tier == "quick" else 1200))
     st2 = explore.dbdfs(("mc.checks.c20", "build"), line_window_params(), 0)
